@@ -389,6 +389,8 @@ def step (_ : St) (w : List String) : St × Out :=
             some (if (o.model.splitOn "text=TRUNC").length > 1 then { o with tags := ["ser.unchecked-append"], spec := "text=none|text=full" } else o)
         | "patch", [_, _, _] => some (unmodelled name)
         | "construct", [_] => some (unmodelled name)
+        | "asput", [_, _] => some (unmodelled name)
+        | "asins", [_, _] => some (unmodelled name)
         | "ptrsetf", [_, _, _] => some (unmodelled name)
         | _, _ => none
       match out with
